@@ -46,6 +46,39 @@ func c10(c *Ctx) {
 		r.Und("C10.R1", "slide globals", p.Pos(initFn.Pos()), "the initialiser stores no integer global")
 		return
 	}
+	// a sync.Once is used with exactly one initialiser: Do(f) and Do(g) on the same Once run only whichever comes first
+	onceUsers := map[string]map[*ssa.Function]bool{}
+	for _, f := range p.Funcs {
+		for _, cs := range callsTo(f, "(*sync.Once).Do") {
+			key := "?"
+			if g, ok := callCommon(cs).Args[0].(*ssa.Global); ok {
+				key = g.Pkg.Pkg.Path() + "." + g.Name()
+			}
+			if fn, ok := callCommon(cs).Args[1].(*ssa.Function); ok {
+				if onceUsers[key] == nil {
+					onceUsers[key] = map[*ssa.Function]bool{}
+				}
+				onceUsers[key][fn] = true
+			} else if mc, ok := callCommon(cs).Args[1].(*ssa.MakeClosure); ok {
+				if onceUsers[key] == nil {
+					onceUsers[key] = map[*ssa.Function]bool{}
+				}
+				onceUsers[key][mc.Fn.(*ssa.Function)] = true
+			}
+		}
+	}
+	for key, fns2 := range onceUsers {
+		if !strings.Contains(key, uxPkg) {
+			continue
+		}
+		var names []string
+		for f := range fns2 {
+			names = append(names, f.Name())
+		}
+		r.Check(len(fns2) == 1, "C10.R1", "sync.Once "+strings.TrimPrefix(key, Mod+"/")+" has a single initialiser", "", "one initialiser function",
+			"the same sync.Once is used with different initialisers ("+strings.Join(names, ", ")+"): only the first one ever runs, so the slide computed by the other stays uninitialised and lookups of that kind return link-time addresses")
+	}
+	// every slide global must be written by the initialiser that guards its readers
 	// ---- R1 init before read
 	for g := range slides {
 		for _, f := range fns {
@@ -280,40 +313,7 @@ func c10(c *Ctx) {
 		}
 	}
 	// exact matching
-	nCmp := 0
-	for _, f := range fns {
-		eachInstr(f, func(i ssa.Instruction) {
-			if ci, ok := i.(ssa.CallInstruction); ok {
-				cn := calleeName(ci.Common())
-				if strings.HasPrefix(cn, "strings.HasPrefix") || strings.HasPrefix(cn, "strings.Contains") || strings.HasPrefix(cn, "strings.HasSuffix") || strings.HasPrefix(cn, "strings.EqualFold") || strings.HasPrefix(cn, "strings.Index") {
-					// only a violation when applied to symbol names (a value loaded from a Sym/Func Name field)
-					for _, a := range ci.Common().Args {
-						for _, at := range origins(a) {
-							if at.Kind == "field" && strings.HasSuffix(at.Name, ".Name") {
-								r.Bad("C10.R3", "inexact symbol match in "+shortName(f), p.Pos(posOf(i)), "symbol names are matched with "+cn+" instead of ==: a near-miss or prefix name resolves to another symbol's address")
-							}
-						}
-					}
-				}
-			}
-			if bo, ok := i.(*ssa.BinOp); ok && (bo.Op == token.EQL || bo.Op == token.NEQ) {
-				isNameLoad := func(v ssa.Value) bool { _, fv, ok := fieldRef(v); return ok && fv != nil && fv.Name() == "Name" }
-				for _, side := range []ssa.Value{bo.X, bo.Y} {
-					if !dependsOn(side, isNameLoad) {
-						continue
-					}
-					nCmp++
-					other := bo.X
-					if side == bo.X {
-						other = bo.Y
-					}
-					_, isP := resolveLocal(other).(*ssa.Parameter)
-					r.Check(isNameLoad(resolveLocal(side)) && isP, "C10.R3", "symbol name comparison in "+shortName(f), p.Pos(posOf(bo)), "Name == requested name",
-						"a symbol is selected by comparing a derived form of its name (slice/prefix/case-folded) or against something other than the requested name: a near-miss name resolves to another symbol's address")
-				}
-			}
-		})
-	}
+	nCmp := checkExactSymbolMatch(p, r, "C10.R3")
 	r.Stat("name_comparisons", nCmp)
 }
 
@@ -339,4 +339,122 @@ func knownAtEdge(pred, succ *ssa.BasicBlock) []Guard {
 		}
 	}
 	return gs
+}
+
+// checkExactSymbolMatch: in package unexports2 symbols are selected only by == against the requested name
+// (or by debug/gosym's exact LookupFunc); no derived form of either name takes part, and every by-name
+// lookup helper returns a non-nil symbol only under such an equality. Returns the number of comparisons seen.
+func checkExactSymbolMatch(p *Prog, r *Report, rule string) int {
+	fns := p.FuncsIn(uxPkg)
+	nCmp := 0
+	isNameLoad := func(v ssa.Value) bool { _, fv, ok := fieldRef(v); return ok && fv != nil && fv.Name() == "Name" }
+	for _, f := range fns {
+		// string transformations applied to symbol names or to the requested name
+		var nameParams []*ssa.Parameter
+		for _, pr := range f.Params {
+			if b, ok := pr.Type().Underlying().(*types.Basic); ok && b.Kind() == types.String {
+				nameParams = append(nameParams, pr)
+			}
+		}
+		isReqName := func(v ssa.Value) bool {
+			for _, pr := range nameParams {
+				if v == ssa.Value(pr) {
+					return true
+				}
+			}
+			return false
+		}
+		lookupLike := f.Signature.Results().Len() >= 1 && func() bool {
+			_, ok := f.Signature.Results().At(0).Type().Underlying().(*types.Pointer)
+			return ok
+		}()
+		eachInstr(f, func(i ssa.Instruction) {
+			if ci, ok := i.(ssa.CallInstruction); ok {
+				cn := calleeName(ci.Common())
+				if strings.HasPrefix(cn, "strings.") || strings.HasPrefix(cn, "bytes.") || strings.HasPrefix(cn, "sort.Search") || strings.HasPrefix(cn, "regexp.") || strings.HasPrefix(cn, "(*regexp.") {
+					for _, a := range ci.Common().Args {
+						if dependsOn(a, isNameLoad) || (lookupLike && dependsOn(a, isReqName)) {
+							r.Bad(rule, "inexact symbol match in "+shortName(f), p.Pos(posOf(i)), "symbol selection goes through "+cn+" applied to a symbol name / the requested name instead of plain ==: a near-miss, prefix or normalised name resolves to another symbol's address")
+						}
+					}
+				}
+			}
+			if bo, ok := i.(*ssa.BinOp); ok && (bo.Op == token.EQL || bo.Op == token.NEQ) {
+				for _, side := range []ssa.Value{bo.X, bo.Y} {
+					if !dependsOn(side, isNameLoad) {
+						continue
+					}
+					nCmp++
+					other := bo.X
+					if side == bo.X {
+						other = bo.Y
+					}
+					_, isP := resolveLocal(other).(*ssa.Parameter)
+					r.Check(isNameLoad(resolveLocal(side)) && isP, rule, "symbol name comparison in "+shortName(f), p.Pos(posOf(bo)), "Name == requested name",
+						"a symbol is selected by comparing a derived form of its name (slice/prefix/case-folded) or against something other than the requested name: a near-miss name resolves to another symbol's address")
+				}
+			}
+		})
+		// by-name helpers returning a symbol pointer: non-nil only under equality with the requested name, or straight from gosym.LookupFunc(name)
+		if !lookupLike || len(nameParams) != 1 || f.Signature.Params().Len() > 2 {
+			continue
+		}
+		rt := f.Signature.Results().At(0).Type().String()
+		if !strings.Contains(rt, "gosym.Sym") && !strings.Contains(rt, "gosym.Func") {
+			continue
+		}
+		for _, ret := range returnsOf(f) {
+			sv := retResult(ret, 0)
+			vals := []ssa.Value{sv}
+			var preds []*ssa.BasicBlock
+			if ph, ok := sv.(*ssa.Phi); ok && ph.Block() == ret.Block() {
+				vals = ph.Edges
+				preds = ret.Block().Preds
+			}
+			for vi, v := range vals {
+				if isNilConst(v) {
+					continue
+				}
+				ok := false
+				for _, a := range origins(v) {
+					if cl, isC := a.V.(*ssa.Call); isC {
+						cn := calleeName(cl.Common())
+						if cn == "(*debug/gosym.Table).LookupFunc" && len(cl.Call.Args) == 2 && isReqName(resolveLocal(cl.Call.Args[1])) {
+							ok = true
+						}
+						// delegating to another checked helper of this package with the same name
+						if cal := staticCallee(cl.Common()); cal != nil && relPkg(cal) == uxPkg {
+							for _, arg := range cl.Call.Args {
+								if isReqName(resolveLocal(arg)) {
+									ok = true
+								}
+							}
+						}
+					}
+				}
+				gs := guardsAt(ret.Block())
+				if preds != nil {
+					gs = knownAtEdge(preds[vi], ret.Block())
+				}
+				for _, g := range gs {
+					bo, isB := g.Cond.(*ssa.BinOp)
+					if !isB || bo.Op != token.EQL || !g.Pol {
+						continue
+					}
+					for _, side := range []ssa.Value{bo.X, bo.Y} {
+						other := bo.X
+						if side == bo.X {
+							other = bo.Y
+						}
+						if b, fv, okF := fieldRef(resolveLocal(side)); okF && fv != nil && fv.Name() == "Name" && resolveLocal(b) == resolveLocal(v) && isReqName(resolveLocal(other)) {
+							ok = true
+						}
+					}
+				}
+				r.Check(ok, rule, "symbol returned only under Name == requested name in "+shortName(f)+" way#"+itoa2(vi), p.Pos(posOf(ret)), "non-nil result guarded by equality with the requested name",
+					"a by-name symbol lookup returns a symbol without an equality test between that symbol's name and the requested name: an absent or near-miss name yields some other symbol's address with a nil error")
+			}
+		}
+	}
+	return nCmp
 }
